@@ -473,6 +473,7 @@ cd {ROOT}
         self.__audit = True
         self.__fingerprints = { None : b'', "" : b'' }
         self.__workspaceLocks = {}
+        self.__failedWorkspaces = set()
         self.__auditMeta = {}
         self.__share = NullShare()
         self.__useSharedPackages = False
@@ -695,7 +696,14 @@ cd {ROOT}
         # need it to finish, e.g. to calculate build-ids or fingerprints.
         await self.__yieldJobWhile(lock.acquire(), lock.release)
         try:
+            # Never execute a workspace again that already failed in this
+            # invocation (same workspace reached via another sandbox).
+            if path in self.__failedWorkspaces:
+                raise CancelBuildException
             yield
+        except BuildError:
+            self.__failedWorkspaces.add(path)
+            raise
         finally:
             lock.release()
 
@@ -1009,6 +1017,7 @@ cd {ROOT}
             self.__running = True
             self.__restart = False
             self.__cookTasks = {}
+            self.__failedWorkspaces = set()
             self.__buildIdTasks = {}
             self.__fingerprintTasks = {}
             self.__allTasks = set()
